@@ -238,6 +238,16 @@ func (c *callback) Replace(name string, fn func(*DB)) error {
 	c.name = name
 	c.handler = fn
 	c.replace = true
+	// the replacement takes the position of the callback it replaces: without a before/after of
+	// its own it inherits them, otherwise callbacks registered before/after "*" are sorted apart
+	if c.before == "" && c.after == "" {
+		for i := len(c.processor.callbacks) - 1; i >= 0; i-- {
+			if old := c.processor.callbacks[i]; old.name == name {
+				c.before, c.after = old.before, old.after
+				break
+			}
+		}
+	}
 	c.processor.callbacks = append(c.processor.callbacks, c)
 	return c.processor.compile()
 }
